@@ -439,7 +439,7 @@ func (s *S) Run(choose Chooser, maxPreempt int, onStep func(Step)) Result {
 			if anyRT {
 				if hungSince.IsZero() {
 					hungSince = time.Now()
-				} else if time.Since(hungSince) > 3*time.Second {
+				} else if time.Since(hungSince) > 10*time.Second {
 					res.Hung = true
 					return res
 				}
